@@ -21,7 +21,7 @@ import (
 	"github.com/flamego/flamego/verifharness/internal/rt"
 )
 
-const rule = "case = a valid route set in which a random subset of routes gets Headers(...) 1..3 times with 0..2 pairs each (the last call is the truth), routes registered through Get / Route / Routes(\"GET,POST\") / Routes(\"get, Post\") / Routes(path, \"GET\", \"POST\") / Any / Get while AutoHead is on (GET and HEAD), incl. fully static and optional routes; requests built from route instances (both forms, every method) with random header sets (absent, empty, matching, non-matching, 4..9 KB long with a verdict that hinges on the last byte, other case of the name in the constraint, repeated fields whose values agree on the verdict). " +
+const rule = "case = a valid route set in which a random subset of routes gets Headers(...) 1..3 times with 0..2 pairs each (the last call is the truth), routes registered through Get / Route / Routes(\"GET,POST\") / Routes(\"get, Post\") / Routes(path, \"GET\", \"POST\") / Any / Get while AutoHead is on (GET and HEAD), incl. fully static and optional routes; requests built from route instances (both forms, every method) with random header sets (absent, empty, matching, non-matching, 4..9 KB long with a verdict that hinges on the last byte, other case of the name in the constraint, repeated fields whose values agree on the verdict under every reading, pairs of requests that cut one comma-separated list differently between two constrained headers, requests without a header map); optionally Headers() calls after all requests have been served once, and everything again. " +
 	"Oracle: reference matcher with the gate 'every constrained header has a non-empty value matched by its expression' applied to both forms and all methods of the route; the handler that ran (or not-found) must be the reference winner. " +
 	"non-trivial = a case with a request whose path is admitted by a constrained route whose constraints fail (so another route or not-found must take it), or that reaches a constrained route through its short form, a non-first method or a fully static path; distinct by case text"
 
